@@ -38,24 +38,55 @@ def _where(tb):
     return '?'
 
 
-class _Timeout(Exception):
-    pass
+class _Timeout(BaseException):       # not an Exception: no `except Exception` of the code under test may swallow it
+    def __init__(self, where, clock):
+        BaseException.__init__(self, where)
+        self.where = where
+        self.clock = clock
 
 
-def _alarm(_sig, _frm):
-    raise _Timeout()
+def _stuck_at(frame):
+    """innermost frame inside the stone package at the moment the limit expired: `module.Class.function`"""
+    while frame is not None:
+        fn = frame.f_code.co_filename.replace('\\', '/')
+        if '/stone/' in fn and '/_vendor/' not in fn:
+            return '%s.%s' % (os.path.basename(fn)[:-3], getattr(frame.f_code, 'co_qualname', frame.f_code.co_name))
+        frame = frame.f_back
+    return 'no-termination'
+
+
+def _expired_cpu(_sig, frm):
+    raise _Timeout(_stuck_at(frm), 'cpu')
+
+
+def _expired_wall(_sig, frm):
+    raise _Timeout(_stuck_at(frm), 'wall')
+
+
+WALL_FACTOR = 10
 
 
 def classify(specs, limit_s=20):
-    """Run the real frontend. Returns a small JSON-able verdict."""
+    """Run the real frontend. Returns a small JSON-able verdict.
+
+    `limit_s` bounds the processor time of this process (ITIMER_PROF), which does not depend on how many other jobs
+    share the machine; a wall-clock alarm `WALL_FACTOR` times as long is the backstop for a compile that sleeps.
+    A `Timeout` verdict names the innermost stone frame that was executing when the limit expired and which clock
+    expired; callers confirm it by `confirm_timeout` (alone, longer limit) before it is reported."""
     from stone.frontend.frontend import specs_to_ir
     from stone.frontend.exception import InvalidSpec
     paths = {p for p, _ in specs}
-    old = signal.signal(signal.SIGALRM, _alarm)
-    signal.alarm(limit_s)
+    old_prof = signal.signal(signal.SIGPROF, _expired_cpu)
+    old_alrm = signal.signal(signal.SIGALRM, _expired_wall)
+    signal.setitimer(signal.ITIMER_PROF, limit_s)
+    signal.alarm(int(limit_s * WALL_FACTOR))
     try:
-        specs_to_ir([tuple(s) for s in specs])
-        return {'k': 'ok'}
+        try:
+            specs_to_ir([tuple(s) for s in specs])
+            return {'k': 'ok'}
+        finally:
+            signal.setitimer(signal.ITIMER_PROF, 0)
+            signal.alarm(0)
     except InvalidSpec as e:
         msg, lineno, path = e.msg, e.lineno, e.path
         bad = []
@@ -66,30 +97,49 @@ def classify(specs, limit_s=20):
         if path is not None and path not in paths:
             bad.append('foreign-path')
         return {'k': 'spec', 'bad': bad}
-    except _Timeout:
-        return {'k': 'crash', 'exc': 'Timeout', 'where': 'no-termination'}
+    except _Timeout as e:
+        return {'k': 'crash', 'exc': 'Timeout', 'where': e.where, 'clock': e.clock, 'limit_s': limit_s}
     except RecursionError as e:
         return {'k': 'crash', 'exc': 'RecursionError', 'where': _where(e.__traceback__)}
     except Exception as e:  # noqa: BLE001 - the class of what escapes is the verdict
         return {'k': 'crash', 'exc': type(e).__name__, 'where': _where(e.__traceback__)}
     finally:
+        signal.setitimer(signal.ITIMER_PROF, 0)
         signal.alarm(0)
-        signal.signal(signal.SIGALRM, old)
+        signal.signal(signal.SIGPROF, old_prof)
+        signal.signal(signal.SIGALRM, old_alrm)
+
+
+def confirm_timeout(specs, verdict, factor=3):
+    """A `Timeout` counts only when it repeats with the case run alone (call this from the parent process, after
+    the worker pool is gone) under a limit `factor` times as long; otherwise the verdict of that run is returned."""
+    if verdict.get('exc') != 'Timeout':
+        return verdict
+    again = classify([tuple(s) for s in specs], limit_s=verdict.get('limit_s', 20) * factor)
+    if again.get('exc') == 'Timeout':
+        again['confirmed'] = True
+    return again
 
 
 def _classify_many(batch):
     core.ensure_repo_on_path()
-    return [classify(s) for s in batch]
+    return [classify(s, limit_s) if limit_s else classify(s) for s, limit_s in batch]
 
 
-def run_parallel(cases, workers=None, chunk=40):
-    """cases: list of specs (each a list of (path, text)). Returns verdicts in order."""
+def run_parallel(cases, workers=None, chunk=40, limits=None):
+    """cases: list of specs (each a list of (path, text)). Returns verdicts in order; a timeout seen in a worker is
+    re-examined alone afterwards (`confirm_timeout`). `limits`: optional per-case processor-time limits."""
     workers = workers or min(16, os.cpu_count() or 4)
-    chunks = [cases[i:i + chunk] for i in range(0, len(cases), chunk)]
+    limits = limits or [None] * len(cases)
+    pairs = list(zip(cases, limits))
+    chunks = [pairs[i:i + chunk] for i in range(0, len(pairs), chunk)]
     out = []
     with concurrent.futures.ProcessPoolExecutor(max_workers=workers) as ex:
         for res in ex.map(_classify_many, chunks):
             out.extend(res)
+    for i, v in enumerate(out):
+        if v.get('exc') == 'Timeout':
+            out[i] = confirm_timeout(cases[i], v)
     return out
 
 
@@ -206,7 +256,8 @@ def shrink(specs, verdict, budget=150):
 def judge(ck, specs, verdict, origin, do_shrink=True):
     ck.hist('fe.fuzz.outcome', verdict['k'] if verdict['k'] != 'crash' else 'crash:' + verdict['exc'])
     if verdict['k'] == 'crash':
-        small = shrink(specs, verdict) if do_shrink else specs
+        # a timeout is not shrunk: every candidate would cost the full limit
+        small = shrink(specs, verdict) if do_shrink and verdict['exc'] != 'Timeout' else specs
         ck.failing_input('C03: %s escapes the frontend (%s)' % (verdict['exc'], verdict['where']),
                          {'kind': 'escape', 'exc': verdict['exc'], 'where': verdict['where']},
                          {'specs': small, 'origin': origin, 'verdict': verdict})
@@ -219,15 +270,17 @@ def judge(ck, specs, verdict, origin, do_shrink=True):
 def suite_fuzz(ck, n_models, n_mut_per_model, short_len, n_random_short):
     from harness import specgen
     rng = ck.rng
-    cases, origins = [], []
+    cases, origins, limits = [], [], {}
     # corpus first
     cdir = os.path.join(core.VERIF, 'corpus', 'C03')
     if os.path.isdir(cdir):
         for fn in sorted(os.listdir(cdir)):
             if fn.endswith('.json'):
                 rec = json.load(open(os.path.join(cdir, fn)))
+                rec = rec.get('case', rec)
                 cases.append([tuple(s) for s in rec['specs']])
                 origins.append('corpus:' + fn)
+                limits[len(cases) - 1] = rec.get('limit_s')
     # (c) language reference snippets, as they are and after a namespace header
     for sn in lang_ref_snippets():
         for text in (sn, 'namespace docs\n\n' + sn):
@@ -255,7 +308,7 @@ def suite_fuzz(ck, n_models, n_mut_per_model, short_len, n_random_short):
         n = rng.randint(short_len + 1, short_len + 4)
         cases.append([('s.stone', 'namespace ns\n\n' + ' '.join(rng.choice(pool) for _ in range(n)) + '\n')])
         origins.append('short-random')
-    verdicts = run_parallel(cases)
+    verdicts = run_parallel(cases, limits=[limits.get(i) for i in range(len(cases))])
     seen_sites = {}
     for specs, origin, v in zip(cases, origins, verdicts):
         ck.case((origin, tuple(t for _p, t in specs)), nontrivial=(origin != 'short' or v['k'] != 'spec'))
